@@ -447,14 +447,14 @@ func extractStore(t *T) (string, error) {
 
 	// onDiskStore.List: every regular file of the directory yields one entry (a name that does not parse is logged and
 	// yields the zero ID); nothing that parses is dropped
-	listAppendsEvery, listSkipsOnlyDirs := false, false
+	listAppendsEvery, listSkipsOnlyDirs, listSkipsUnparsable := false, false, false
 	if fd := FuncDecl(f, "onDiskStore", "List"); fd != nil {
 		ast.Inspect(fd.Body, func(n ast.Node) bool {
 			fl, ok := n.(*ast.FuncLit)
 			if !ok {
 				return true
 			}
-			okSoFar, seenAppend := true, false
+			okSoFar, seenAppend, seenParse := true, false, false
 			for _, st := range fl.Body.List {
 				src := normSrc(t.Src(rel, st))
 				if seenAppend {
@@ -465,7 +465,11 @@ func extractStore(t *T) (string, error) {
 					cond := normSrc(t.Src(rel, x.Cond))
 					body := normSrc(t.Src(rel, x.Body))
 					switch {
-					case cond == "err != nil" && (body == "{ return err }" || !strings.Contains(body, "return")):
+					case cond == "err != nil" && !seenParse && body == "{ return err }":
+					case cond == "err != nil" && seenParse && !strings.Contains(body, "return"):
+						// a name that is no ID is only logged: it is listed under the zero ID
+					case cond == "err != nil" && seenParse && strings.HasSuffix(body, "return nil }") && strings.Count(body, "return") == 1:
+						listSkipsUnparsable = true // a name that is no ID is logged and skipped
 					case cond == "info.IsDir()" && body == "{ return nil }":
 						listSkipsOnlyDirs = true
 					default:
@@ -475,13 +479,16 @@ func extractStore(t *T) (string, error) {
 					if src == "ids = append(ids, id)" {
 						seenAppend = true
 					}
+					if src == "id, err := imap.InternalMessageIDFromString(info.Name())" {
+						seenParse = true
+					}
 				default:
 					if strings.Contains(src, "return") || strings.Contains(src, "continue") {
 						okSoFar = false
 					}
 				}
 			}
-			listAppendsEvery = okSoFar && seenAppend
+			listAppendsEvery = okSoFar && seenAppend && seenParse
 			return false
 		})
 	}
@@ -521,7 +528,8 @@ func extractStore(t *T) (string, error) {
 	sb.WriteString("Definition batch_delete_is_per_id_loop : bool := " + coqBool(wcsDeleteLoop && uncheckedForwards) + ".\n")
 	sb.WriteString("(* store/disk.go Delete: the loop over the IDs is left only by returning the error of a failed os.Remove *)\n")
 	sb.WriteString("Definition disk_delete_stops_with_the_error : bool := " + coqBool(diskDeleteStops) + ".\n")
-	sb.WriteString("(* store/disk.go List: every regular file yields one entry; only directories are skipped *)\n")
+	sb.WriteString("(* store/disk.go List: every regular file whose name is an ID yields that ID; only directories and (if\n   list_skips_foreign_names) files whose name is no ID are skipped - otherwise those are listed under the zero ID *)\n")
 	sb.WriteString("Definition list_yields_every_file : bool := " + coqBool(listAppendsEvery && listSkipsOnlyDirs) + ".\n")
+	sb.WriteString("Definition list_skips_foreign_names : bool := " + coqBool(listSkipsUnparsable) + ".\n")
 	return sb.String(), nil
 }
